@@ -181,7 +181,7 @@ def jobs(tier):
             w = 3 if ln > 32 else 1
             out.append(dict(func="field_read", params=dict(code=code, length=ln, F=F), weight=w))
             out.append(dict(func="field_write", params=dict(code=code, length=ln, F=F), weight=w))
-    for k in range(1, (4 if tier == "quick" else 8) + 1):
+    for k in range(1, (4 if tier == "quick" else 5) + 1):
         out.append(dict(func="layout", params=dict(k=k), weight=k))
     out.append(dict(func="default_lengths", params={}))
     return out
@@ -199,7 +199,7 @@ META = dict(
     bounds=dict(quick="all 16 integer types (8-bit types with field lengths 1..8), BOOLEAN (1 and 8 bits), REAL32/64; "
                       "frame length F=1..8 bytes; offset symbolic over 0..8F-len; frame content and value fully "
                       "symbolic; layout arithmetic for k<=4 variables with symbolic lengths",
-                thorough="as quick; layout arithmetic for k<=8"),
+                thorough="as quick; layout arithmetic for k<=5 (k=6 ran past 800 s)"),
     outside_bounds=["frames longer than 8 bytes (CAN classic limit of the property)", "values that do not fit the "
                     "field", "sub-byte fields of multi-byte types (not in the statement)"],
     assumptions=["offset/length attributes set directly on the PdoVariable for the field harness (the layout "
